@@ -240,8 +240,6 @@ pub open spec fn authenticated_by(s: SendRec, signer: Address, sv: SignedVoucher
         !old(rt).in_tx@,
         !old(rt).deleted@,
         old(rt).sends@.len() == 0,
-        // the channel's parties are account-type actors (checked by the constructor), never the channel itself: value sent to them leaves
-        rt_never_self(*old(rt), rt_state::<State>(old(rt).state_id@).to), rt_never_self(*old(rt), rt_state::<State>(old(rt).state_id@).from),
     ensures
         r.is_ok() ==> ({
             let st = rt_state::<State>(old(rt).state_id@);
@@ -252,8 +250,12 @@ pub open spec fn authenticated_by(s: SendRec, signer: Address, sv: SignedVoucher
             &&& final(rt).sends@.len() == 2
             &&& final(rt).sends@[0].to == st.to && final(rt).sends@[0].method == METHOD_SEND && final(rt).sends@[0].value == st.to_send@ && final(rt).sends@[0].ok
             &&& final(rt).sends@[1].to == st.from && final(rt).sends@[1].method == METHOD_SEND && final(rt).sends@[1].ok
-            &&& final(rt).sends@[1].value == old(rt).balance@ - st.to_send@
-            &&& final(rt).balance@ == 0
+            // the remainder: everything the channel holds after the payee was paid. The constructor only checks that an actor exists behind
+            // each party address (NOT that it is an account), so a party can be the channel itself: value "sent" to oneself stays.
+            &&& (final(rt).sends@[1].value == old(rt).balance@ - st.to_send@
+                 || (rt_is_self(*old(rt), st.to) && final(rt).sends@[1].value == old(rt).balance@))
+            &&& (rt_never_self(*old(rt), st.to) && rt_never_self(*old(rt), st.from)) ==>
+                    final(rt).sends@[1].value == old(rt).balance@ - st.to_send@ && final(rt).balance@ == 0
             &&& final(rt).deleted@
         }),
         /*C11*/ r.is_ok() ==> (old(rt).msg.caller == rt_state::<State>(old(rt).state_id@).from || old(rt).msg.caller == rt_state::<State>(old(rt).state_id@).to) && final(rt).validated@.is_some(),
